@@ -601,6 +601,24 @@ def mon_streamed_readback(rr):
     return out
 
 
+def gen_stray_root_programs():
+    """Things in the cache directory that the library did not put there - a regular file, a symlink, a FIFO-less
+    selection of what `tar`, editors and users leave behind - and then the bulk operations: `clear`, a listing, a
+    write.  Whatever the answer is (the implementation's `remove_dir_all` refuses a plain file), BOTH flavours give it,
+    and leave the same things behind."""
+    progs = []
+    strays = [("file", ["put c0/README.txt x68656c6c6f"]), ("link", ["put tgt/elsewhere x01", "symlink c0/shortcut abs:tgt/elsewhere"]),
+              ("dir", ["mkdir c0/lost+found/inner"]), ("file-in-index", ["put c0/index-v5/notes.txt x6e6f7465"]),
+              ("file-in-content", ["put c0/content-v2/sha256/README x72"]), ("two", ["put c0/a.txt x61", "mkdir c0/zz"])]
+    for name, mk in strays:
+        ops = [w_oneshot("s", "sha256", b"kept", b"a value")] + mk
+        ops += ["clear s c0", "list c0", "stat c0/README.txt", "stat c0/shortcut", "stat c0/lost+found", "stat c0/a.txt", "cat tgt/elsewhere",
+                f"read s c0 {hx(b'kept')}", w_oneshot("s", "sha256", b"after", b"written after the clear"), f"read s c0 {hx(b'after')}", "clear s c0",
+                "list c0"]
+        progs.append(Program(f"stray-{name}", ops, tags={"variety": ("stray", name)}))
+    return progs
+
+
 def gen_rewrite_same_programs():
     """The same bytes stored twice through every one-shot and streamed entry point, small and large: the second write
     finds the stored copy and must leave it alone (for the system-call skeleton leg: no call of the second write opens,
